@@ -2,7 +2,9 @@ package in_toto
 
 import (
 	"context"
+	"crypto/ed25519"
 	"encoding/base64"
+	"encoding/hex"
 	"encoding/json"
 	"errors"
 	"fmt"
@@ -173,6 +175,12 @@ func (e *Envelope) Dump(path string) error {
 }
 
 func getSignerVerifierFromKey(key Key) (dsse.SignerVerifier, error) {
+	// The constructors below rely on key material that fits the key type,
+	// which is not a given for keys that come from a layout
+	if err := validateKeyMaterial(key); err != nil {
+		return nil, err
+	}
+
 	sslibKey := getSSLibKeyFromKey(key)
 
 	switch sslibKey.KeyType {
@@ -185,6 +193,34 @@ func getSignerVerifierFromKey(key Key) (dsse.SignerVerifier, error) {
 	}
 
 	return nil, ErrUnsupportedKeyType
+}
+
+/*
+validateKeyMaterial checks that the public and, if there is one, the private
+part of the passed key can be parsed and are of the type that the key claims
+to have. Ed25519 keys must have the length of an ed25519 key in addition.
+*/
+func validateKeyMaterial(key Key) error {
+	switch key.KeyType {
+	case rsaKeyType, ecdsaKeyType, ed25519KeyType:
+		if err := validateKeyVal(key); err != nil {
+			return err
+		}
+	default:
+		return ErrUnsupportedKeyType
+	}
+
+	if key.KeyType == ed25519KeyType {
+		if hex.DecodedLen(len(key.KeyVal.Public)) != ed25519.PublicKeySize {
+			return ErrInvalidKey
+		}
+		privateLen := hex.DecodedLen(len(key.KeyVal.Private))
+		if privateLen != 0 && privateLen != ed25519.SeedSize && privateLen != ed25519.PrivateKeySize {
+			return ErrInvalidKey
+		}
+	}
+
+	return nil
 }
 
 func getSSLibKeyFromKey(key Key) signerverifier.SSLibKey {
